@@ -71,7 +71,7 @@ Fixpoint stmt_eqb (a b : stmt) : bool :=
   | SStrRef f g i, SStrRef f' g' i' => (f =? f') && (g =? g') && idx_eqb i i'
   | SCStr f i, SCStr f' i' => (f =? f') && idx_eqb i i'
   | SRef f i, SRef f' i' => (f =? f') && idx_eqb i i'
-  | SRefArr a1 a2 a3 a4 i w, SRefArr b1 b2 b3 b4 i' w' =>
+  | SRefArrHead a1 a2 a3 a4 i w, SRefArrHead b1 b2 b3 b4 i' w' =>
     (a1 =? b1) && (a2 =? b2) && (a3 =? b3) && (a4 =? b4) && idx_eqb i i' && (w =? w')
   | SCleanRefs a1 a2 a3 a4 i, SCleanRefs b1 b2 b3 b4 i' =>
     (a1 =? b1) && (a2 =? b2) && (a3 =? b3) && (a4 =? b4) && idx_eqb i i'
